@@ -526,6 +526,16 @@ struct Digit {
                     } else {
                         powerOfPositiveTen(number.Natural, exponent);
                     }
+                } else if ((offset < end_offset) && ((content[offset] == DigitUtils::DigitChar::E) ||
+                                                     (content[offset] == DigitUtils::DigitChar::UE))) {
+                    // Zero with an exponent (0e1, 0.0E-5) is still zero, but the exponent belongs to the number.
+                    SizeT32 exponent        = 0;
+                    bool    is_negative_exp = false;
+                    ++offset;
+
+                    if (!parseExponent(content, exponent, is_negative_exp, offset, end_offset)) {
+                        return QNumberType::NotANumber;
+                    }
                 }
                 ///////////////////////////////////////
                 if (is_negative) {
